@@ -31,7 +31,7 @@ let config_of_string (s : string) : config =
     { c_spec = { fbase = bytes_of_hex base; fdisc = opt_hex disc; fts = (ts = "1"); fsfx = opt_hex sfx };
       c_append = (app = "1");
       c_cap = (if cap = "~" || cap.[0] = 'a' then None else Some (nat_of_int (int_of_string cap)));
-      c_async = (cap <> "~" && cap.[0] = 'a');
+      c_async = (cap <> "~" && cap.[0] = 'a'); c_start = None;
       c_rot = rot; c_utc = (utc = "1"); c_symlink = (link = "1"); c_bg = (bg = "1") }
   | _ -> failwith ("config: " ^ s)
 
